@@ -11,26 +11,42 @@ from harness.extract import reward as x_reward
 from harness.rigs import reward as rig
 
 MANIFEST = {
-    "text": "Lean 4 proof, for every sharing graph, neighbour order, agent declaration order, component list, weight and "
-            "step sequence, about an executable model of science.graph_has_cycle / topological_sort (as written), "
-            "RewardFunction.update, the reward components and PrimaiteGame.setup_reward_sharing / update_agents: cyclic graphs "
-            "are exactly the rejected ones; the evaluation order lists every agent once, dependencies first; each step reward "
-            "is the weighted sum of the components on the post-step state and the agent's latest item, with every shared "
-            "component equal to the other agent's reward of the same step; the rewards do not depend on the evaluation "
-            "order or the declaration order; sticky components keep their value until the next qualifying event and "
-            "non-sticky ones return to zero; totals are sums of step rewards. Tie: Gen/Reward.lean regenerated from "
-            "rewards.py / game.py / science.py + differential rig R-rew through the real PrimaiteGame.from_config "
-            "(every sharing graph on <= 4 agents; agents with two or more shared-reward components, cycles through any of them), "
-            "real update_agents on synthetic states, and real PrimaiteGymEnv / PrimaiteGame runs on the shipped and on generated "
-            "scenarios. The graph handed to graph_has_cycle is compared with the declared shares on every load; a Python step "
-            "oracle (component taps) checks same-step shared values and the weighted sum on the implementation alone.",
-    "note": "C10-specific: the theorems are about exact rational arithmetic (and, for the weighted sum, any associative arithmetic "
-            "with a zero). The rig compares exactly where float arithmetic is exact (dyadic families) and otherwise (decimal weights "
-            "such as 0.4 / 0.05, shipped scenarios as they are) gives the model the exact value of every double and requires the "
-            "implementation's floats to lie within an accumulated forward rounding bound (2^-53 per operation). The simulation state "
-            "is abstracted to the keys the components read.",
-    "technique": "Lean 4 theorems over executable models of the graph functions and the reward layer; model tied by "
-                 "regenerated tables and a differential rig",
+    "text": "Lean 4 proof, for every sharing graph, neighbour order, agent declaration order, component list, weight, state "
+            "dictionary and step sequence, about an executable model of science.graph_has_cycle / topological_sort (as written), "
+            "access_from_nested_dict, the seven reward components' calculate (on the state DICTIONARY and the full history item, "
+            "exceptions included), RewardFunction.update, PrimaiteGame.setup_reward_sharing / update_agents and the reward part of "
+            "PrimaiteGymEnv.reset: cyclic graphs are exactly the rejected ones; the evaluation order lists every agent once, "
+            "dependencies first; each step reward is the weighted sum of the components on the post-step state and the agent's "
+            "latest item, with every shared component equal to the other agent's reward of the same step; every component's value "
+            "depends only on the leaf of the state dictionary it names and on the fields of the agent's OWN latest item it reads "
+            "(non-interference, per component and for the whole step); the rewards do not depend on the evaluation or declaration "
+            "order; sticky components keep their value until the next qualifying event, non-sticky ones return to zero; totals are "
+            "sums of step rewards at every point of an episode, restart at 0 after a reset, and are 0 for agents without components; "
+            "the weighted-sum law holds over any commutative ring, and in any arithmetic with relative rounding error u the code's "
+            "left-to-right loop stays within ((1+u)^(n+1)-1)*sum|w*c| of it (abstract rounding function). "
+            "Tie: Gen/Reward.lean regenerated from rewards.py / game.py / science.py / utils.py / interface.py on every run — the body "
+            "of each calculate is TRANSLATED statement by statement into a small imperative language and proved, for all inputs, to "
+            "compute what the component model computes (semantic tie: a meaning-preserving refactoring passes, a change of meaning "
+            "refutes the theorem); literal defaults; blunt text flags for the hand-transcribed functions. Differential rig R-rew "
+            "through the real PrimaiteGame.from_config (every sharing graph on <= 4 agents; several shares per agent; cycles of every "
+            "length incl. self-sharing), the real science.py functions on EVERY graph with <= 4 nodes incl. self-loops and repeated "
+            "neighbours (thorough: every loop-free graph on 5 nodes), real update_agents on synthetic state dictionaries (also leaves "
+            "of the wrong shape: the exception kinds are compared), resets, agents without reward function, the real "
+            "access_from_nested_dict on synthetic values and on whole real describe_state() dictionaries, and real PrimaiteGymEnv / "
+            "PrimaiteGame runs with resets on the shipped and on generated scenarios. Python oracles on the implementation alone: "
+            "declared sharing graph, cycle <=> rejected, same-step shared values, weighted sum, totals per episode, and a "
+            "non-interference recheck (each calculate re-run on a copy with the state cut down to its own leaf and the item fields "
+            "outside its proved read-set scrambled).",
+    "note": "C10-specific: the theorems are about exact rational arithmetic (weighted sum: any commutative ring). The rig compares "
+            "exactly where float arithmetic is exact (dyadic families) and otherwise (decimal weights such as 0.4 / 0.05, shipped "
+            "scenarios as they are) gives the model the exact value of every double and requires the implementation's floats to lie "
+            "within the accumulated forward rounding bound whose per-sum factor is the one proved in Lemmas/RewardRounding.lean; that "
+            "CPython floats are a rounding function with u = 2^-53 (IEEE-754, no overflow/underflow) is assumed, not proved. How "
+            "describe_state() PRODUCES the dictionary from the simulator objects is not modelled (the dictionary is the model's "
+            "input); for large real dictionaries the rig sends their projection on the components' own key paths, which is proved "
+            "invisible to access_from_nested_dict on those paths.",
+    "technique": "Lean 4 theorems over executable models of the graph functions and the reward layer; components tied by a "
+                 "source-to-AST translation proved equivalent to the models; model tied by regenerated tables and a differential rig",
     "design_ref": "5/C10",
 }
 MODULES = ["PrimaiteModel.Props.C10", "PrimaiteModel.Props.C10Calc", "PrimaiteModel.Props.C10Total"]
@@ -188,6 +204,9 @@ def replay(rec: dict) -> bool:
         from harness.lib.core import lake_build
         lake_build([EXE])
     r = rec["replay"]
+    if r.get("family") == "oracle-graph":
+        impl, _cap = rig.run_impl(r["case"])
+        return _graph_oracle([k for k, _ in r["case"]["graph"]], {k: nb for k, nb in r["case"]["graph"]}, impl[0]) is None
     if r.get("family") == "oracle":
         kinds = _oracle_kinds(r["case"])
         return (r["kind"] not in kinds) if "kind" in r else not kinds
@@ -200,14 +219,14 @@ def _graph_case(keys: List[str], nbrs: Dict[str, List[str]]) -> dict:
     return {"family": "graph", "graph": [[k, list(nbrs[k])] for k in keys]}
 
 
-def _exhaustive_graphs(ctx: Ctx, rng: Rng) -> List[Tuple[str, dict]]:
-    """Bounded-exhaustive family for science.graph_has_cycle / topological_sort against the proved model:
+def _exhaustive_graphs(ctx: Ctx, rng: Rng):
+    """Bounded-exhaustive family for science.graph_has_cycle / topological_sort against the proved model, generated lazily as
+    (family name, keys in dict order, neighbour lists):
     * EVERY directed graph on n <= 4 nodes, self-loops included (2^(n*n) arc sets; n = 4: 65 536), keys in a random order,
       each neighbour collection in a random order;
-    * EVERY graph on n <= 3 nodes whose neighbour collections are lists of length <= 2 with repetition (duplicate edges), every
-      key order for n <= 3; for n = 4 the lists of length <= 2 over a sample;
-    * thorough: every loop-free graph on 5 nodes (2^20), each also with a random non-empty set of self-loops added."""
-    out: List[Tuple[str, dict]] = []
+    * EVERY graph on n <= 3 nodes whose neighbour collections are lists of length <= 2 with repetition (duplicate edges), in every
+      key order; for n = 4 lists of length <= 3 with repetition, sampled;
+    * thorough: every loop-free graph on 5 nodes (2^20), a quarter of them also with a random non-empty set of self-loops."""
     for n in range(0, 5):
         names = [f"n{i}" for i in range(n)]
         pairs = [(u, v) for u in names for v in names]
@@ -218,18 +237,18 @@ def _exhaustive_graphs(ctx: Ctx, rng: Rng) -> List[Tuple[str, dict]]:
                     nb[u].append(v)
             if n >= 3:
                 nb = {u: rng.shuffle(vs) for u, vs in nb.items()}
-            out.append((f"graph-exh{n}", _graph_case(rng.shuffle(names) if n >= 2 else names, nb)))
+            yield f"graph-exh{n}", (rng.shuffle(names) if n >= 2 else names), nb
     # duplicate edges: all neighbour LISTS of length <= 2 (with repetition)
     for n in (1, 2, 3):
         names = [f"n{i}" for i in range(n)]
         lists = [[]] + [[a] for a in names] + [[a, b] for a in names for b in names]
         for combo in itertools.product(lists, repeat=n):
             for keys in itertools.permutations(names):
-                out.append((f"graph-dup{n}", _graph_case(list(keys), dict(zip(names, combo)))))
+                yield f"graph-dup{n}", list(keys), dict(zip(names, combo))
     names = [f"n{i}" for i in range(4)]
     lists = [[]] + [[a] for a in names] + [[a, b] for a in names for b in names] + [[a, a, b] for a in names for b in names]
     for _ in range(ctx.scale(6000, 60000)):
-        out.append(("graph-dup4", _graph_case(rng.shuffle(names), {u: rng.choice(lists) for u in names})))
+        yield "graph-dup4", rng.shuffle(names), {u: rng.choice(lists) for u in names}
     if ctx.thorough:
         names = [f"n{i}" for i in range(5)]
         pairs = [(u, v) for u in names for v in names if u != v]
@@ -239,11 +258,91 @@ def _exhaustive_graphs(ctx: Ctx, rng: Rng) -> List[Tuple[str, dict]]:
                 if mask >> i & 1:
                     nb[u].append(v)
             keys = rng.shuffle(names)
-            out.append(("graph-exh5-loopfree", _graph_case(keys, nb)))
+            yield "graph-exh5-loopfree", keys, nb
             if mask % 4 == 0:
                 loops = [u for u in names if rng.chance(1, 3)] or [rng.choice(names)]
-                out.append(("graph-exh5-selfloops", _graph_case(keys, {u: nb[u] + ([u] if u in loops else []) for u in names})))
-    return out
+                yield "graph-exh5-selfloops", keys, {u: nb[u] + ([u] if u in loops else []) for u in names}
+
+
+def _graph_oracle(keys: List[str], nb: Dict[str, List[str]], answer: str) -> Optional[str]:
+    """Independent judgement of the implementation's answer on a raw graph: cycle <=> some node reaches itself; otherwise the
+    order lists every node (keys and dangling names) exactly once, each after all its neighbours."""
+    nodes = list(keys) + [v for k in keys for v in nb[k] if v not in keys]
+    nodes = list(dict.fromkeys(nodes))
+    reach = {u: set(nb.get(u, [])) for u in nodes}
+    changed = True
+    while changed:
+        changed = False
+        for u in nodes:
+            new = set()
+            for v in reach[u]:
+                new |= reach[v]
+            if not new <= reach[u]:
+                reach[u] |= new
+                changed = True
+    cyc = any(u in reach[u] for u in nodes)
+    if cyc != answer.startswith("cycle=1"):
+        return f"graph_has_cycle answered {answer.split()[0]} on a graph that is {'cyclic' if cyc else 'acyclic'}"
+    if not cyc:
+        order = [x for x in answer.split("order=", 1)[1].split(",") if x]
+        if sorted(order) != sorted(nodes):
+            return f"topological_sort returned {order}: not every node exactly once ({nodes})"
+        pos = {x: i for i, x in enumerate(order)}
+        for u in keys:
+            for v in nb[u]:
+                if pos[v] >= pos[u]:
+                    return f"topological_sort returned {order}: {u} depends on {v} but comes first"
+    return None
+
+
+def _run_graph_bulk(ctx: Ctx, gen) -> None:
+    """The exhaustive graph family, in chunks: the real science.py functions, the Lean driver and the independent oracle on the
+    same graphs; every answer compared. A disagreement / oracle failure becomes an ordinary `graph` case (replayable)."""
+    import hashlib
+    from primaite.game.science import graph_has_cycle, topological_sort
+    reported = 0
+    total = agree = 0
+    chunk: List[Tuple[str, List[str], Dict[str, List[str]]]] = []
+
+    def flush():
+        nonlocal reported, total, agree
+        if not chunk:
+            return
+        lines, impl = [], []
+        for _fam, keys, nb in chunk:
+            lines.append("graph " + (";".join(f"{k}:{rig.lst(nb[k])}" for k in keys) or "-"))
+            g = {k: list(nb[k]) for k in keys}
+            impl.append("cycle=1" if graph_has_cycle(g) else "cycle=0 order=" + ",".join(topological_sort(g)))
+        model = run_driver(EXE, lines)
+        for (fam, keys, nb), line, a, m in zip(chunk, lines, impl, model):
+            total += 1
+            ctx.count("family:" + fam)
+            ctx.count("graph:" + a.split()[0])
+            ctx.cov["evaluations"] += 1
+            ctx.cov["traces_validated_against_impl"] += 1
+            if len(keys) > 1:
+                ctx._distinct.add(hashlib.sha1(line.encode()).hexdigest())
+            bad = _graph_oracle(keys, nb, a)
+            if bad is not None and reported < 3:
+                reported += 1
+                ctx.violation({"kind": "oracle", "what": "graph functions"}, "C10 oracle fails on the implementation: " + bad,
+                              {"family": "oracle-graph", "case": _graph_case(keys, nb), "oracle_says": bad, "from": fam})
+            if a == m:
+                agree += 1
+            elif reported < 3:
+                reported += 1
+                ctx.violation({"kind": "model-vs-impl", "line": "graph"},
+                              f"science.py differs from the proved model on a raw graph: impl={a!r} model={m!r}",
+                              {"family": "diff", "case": _graph_case(keys, nb), "lines": ["reset", line], "impl": [a], "model": [m],
+                               "first_diff": 0, "from": fam})
+        chunk.clear()
+    for item in gen:
+        chunk.append(item)
+        if len(chunk) >= 100000:
+            flush()
+    flush()
+    ctx.oblige("rig:graph functions agree with the model on the bounded-exhaustive family", "correspondence", agree == total,
+               f"{total - agree} of {total} graphs disagree")
 
 
 def _cycle_config_case(rng: Rng) -> dict:
@@ -391,8 +490,8 @@ def _families(ctx: Ctx) -> List[Tuple[str, dict]]:
     # access_from_nested_dict / projection / serialisation on synthetic nested values
     for k in range(ctx.scale(500, 10000)):
         cases.append(("access", _access_case(rng)))
-    # the two science.py functions on raw graphs: bounded-exhaustive, then random (lists with repeats, dangling names)
-    cases += _exhaustive_graphs(ctx, rng.fork("graphs"))
+    # the two science.py functions on raw graphs: random ones here (lists with repeats, dangling names); the bounded-exhaustive
+    # family is streamed separately (_run_graph_bulk)
     for k in range(ctx.scale(600, 20000)):
         cases.append(("rawgraph", rig.gen_raw_graph(rng)))
     return cases
@@ -419,6 +518,7 @@ def run(ctx: Ctx):
                        "(post-step state dictionary, per-agent history item), resets) or a raw graph or (state dictionary, key paths); "
                        "non-trivial when the load is refused, or some agent has a shared component, or a sticky/non-sticky component "
                        "sees a step without qualifying event, or a component raises; distinct by canonical JSON")
+    _run_graph_bulk(ctx, _exhaustive_graphs(ctx, ctx.rng.fork("graphs")))
     cases = _families(ctx)
     impl_all, lines_all, bounds, captures = [], [], [], []
     k = 0
@@ -428,6 +528,9 @@ def run(ctx: Ctx):
         impl, capture = rig.run_impl(case)
         capture["oracle"] = rig.oracle_all(case, impl, capture)  # the property's own oracle, on the implementation only
         capture.pop("game", None)
+        if capture.get("sim_exception"):
+            ctx.count("env:run cut short by an exception outside the reward layer")
+            ctx.notes.append("exception outside the reward layer during an env run (run compared up to that step): " + capture.pop("sim_exception"))
         for aux in capture.pop("aux", []):  # whole real state dictionaries met by an env run: access / projection / serialisation
             cases.append(("access-real", aux))
         lines = rig.model_lines(case, capture)
